@@ -12,7 +12,7 @@ from hyp import Violation
 PID = "C03"
 RULE = ("grammar- and type-directed programs (<=12 top-level statements, depth<=3) over ints/bools/strings, operators with C precedence, short-circuit, "
         "ternary, block scoping/shadowing, var copies vs references/parameters/captures, if/else-if/else, while/for/ranged-for with break/continue, "
-        "switch with fall-through, functions (recursion, typed params, guards, overload sets, early return), lambdas, classes, vectors; printed with "
+        "switch with fall-through, functions (recursion, typed params, guards, overload sets, early return), lambdas, classes, vectors, string-keyed maps (literals with repeated keys, insertion through [], at, count, erase, size, to_string, structural copies, ranged-for over <key, value> pairs with in-place change of the value); printed with "
         "minimal parentheses and random layout; ~10% carry one injected fault. Oracle = independent reference interpreter (stdout, rec log, final "
         "value rendering, error class). non-trivial = the model executed >=3 statement kinds, >=1 call and >=1 taken branch/iteration; "
         "distinct = distinct program texts")
@@ -66,7 +66,7 @@ def main(tier):
     ev.assumptions = ["the reference interpreter (model/refchai.py) is written from the cheatsheet/readme semantics and calibrated on the repaired tree; constructs whose "
                       "behaviour is undocumented and surprising are kept out of the generator (see excluded_constructs)"]
     ev.cov["excluded_constructs"] = ["copying a Vector and then mutating elements through the copy (element handles are shared)", "size_t arithmetic (size() is wrapped in int())",
-                                     "Map operator[] on a missing key", "assigning to a function parameter other than in the dedicated mut* functions (const-ness of temporaries passed as arguments is undocumented)", "growing a vector inside a ranged-for (iterator invalidation, recorded as a known finding under C12)", "try/catch (C10)", "eval()/use() (C04, C19)", "copying class instances"]
+                                     "reading a missing Map key through [] (inserts an element without a value)", "changing Map elements through a copy of the Map (element handles are shared, as for Vector)", "assigning to a function parameter other than in the dedicated mut* functions (const-ness of temporaries passed as arguments is undocumented)", "growing a vector inside a ranged-for (iterator invalidation, recorded as a known finding under C12)", "try/catch (C10)", "eval()/use() (C04, C19)", "copying class instances"]
     n = 5000 if tier == "quick" else 70000
     failures = hyp.run("c03", ev, tier, n)
     confirmed = hyp.confirm("c03", failures, PID)
